@@ -6,7 +6,7 @@ from oracle_util import *  # noqa
 from protocol import from_real, pm
 
 ID = "C12"
-LEAN_MODULE = ["SCoda.Props.C13", "SCoda.Props.C12", "SCoda.Props.C12b", "SCoda.Props.C13b"]
+LEAN_MODULE = ["SCoda.Props.C13", "SCoda.Props.C12", "SCoda.Props.C12b", "SCoda.Props.C13b", "SCoda.Props.ViewTie"]
 CLAUSES = [
     ("one sequence per saved sequence, in the same order", ["SCoda.C13.one_per_group"]),
     ("save: summing the delta times of the written track puts every emitted event back on its original tick, in order, with pitch and velocity kept "
@@ -21,6 +21,9 @@ CLAUSES = [
      "is saved there — for signature messages that carry their own fields only and no two saved signatures of a kind on one tick "
      "(without the field hypothesis the statement is false of the model: `save_load_signatures_statement_false`, a time signature carrying a key)",
      ["SCoda.C13.save_load_note_ons", "SCoda.C13.save_load_signatures_partial", "SCoda.C13.save_load_signatures_statement_false"]),
+    ("TIE BY TRANSLATION (save side): RelativeSequence.to_midi_track and MidiTrack.to_mido_track (the delta buffer across waits and non-emitting messages) as "
+     "re-translated from the source on every run equal the model toMido, up to the fields a mido message does not carry",
+     ["SCoda.ViewTie.toMidoTrack_eq", "SCoda.ViewTie.toMidi_toMido_eq", "SCoda.ViewTie.toMidiTrack_eq", "SCoda.ViewTie.parseInternalMessage_eq"]),
     ("NOTES, not only sounding sets (audit A8): the notes (pitch, onset, duration, velocity) of loaded sequence i are a permutation of the notes of saved sequence i with "
      "the channel set to 0, for single-channel sequences with notes of positive length; dropping those two hypotheses is refuted (cross-channel same pitch: known finding "
      "D21; a zero-length note swallows the next note of its pitch: D17's mechanism, booked for C12 as D17b); the round trip always succeeds for a non-empty list and raises "
